@@ -80,7 +80,7 @@ class Sim:
     """One simulated execution of a program by several actors over one shared heap."""
 
     def __init__(self, program, assignment, decider, share_tables=True, gran="LINE", faults=None,
-                 stall=None, step_cap=2_000_000, env=None):
+                 stall=None, step_cap=2_000_000, env=None, op_faults=None):
         self.L = lib.get()
         self.program = program
         self.n = len(program)
@@ -95,6 +95,7 @@ class Sim:
         for f in faults or []:
             self.faults[f["op"]] = (f["step"], f.get("kind", "async_exc"))
         self.stall = stall  # {"actor":k,"op":i,"step":s} park that actor there until the others are done
+        self.op_faults = {f["op"]: f for f in (op_faults or [])}  # whole-op faults (sequential configs only)
         self.step_cap = step_cap
         nact = max(assignment.values()) + 1 if assignment else 1
         scripts = [[] for _ in range(nact)]
@@ -227,7 +228,11 @@ class Sim:
                 self.events.append((self.seq, a.idx, "inv", i))
                 a.in_lib = True
                 try:
-                    v = exec_op(self.env, self.program[i])
+                    of = self.op_faults.get(i)
+                    if of is None:
+                        v = exec_op(self.env, self.program[i])
+                    else:
+                        v = self._exec_with_op_fault(i, of)
                 finally:
                     a.in_lib = False
                 self.env.heap[i] = v
@@ -249,6 +254,40 @@ class Sim:
             a.in_lib = False
             a.cur_op = None
             self._handoff(a)
+
+    def _exec_with_op_fault(self, i, of):
+        """leaf_exc: a user-defined leaf term raises on its k-th get_sql during this op;
+        recursion: the interpreter's recursion limit is lowered for this op only."""
+        env = self.env
+        if of["kind"] == "leaf_exc":
+            st = env.leaf_state
+            st.armed, st.calls, st.fire_at = True, 0, of["at"]
+            try:
+                v = exec_op(env, self.program[i])
+            finally:
+                fired = st.calls >= st.fire_at
+                st.armed = False
+            if fired and isinstance(v, Failed) and v.exc == "RuntimeError":
+                v.injected = True
+                self.fired["leaf_exc"] = self.fired.get("leaf_exc", 0) + 1
+            return v
+        if of["kind"] == "recursion":
+            depth = 0
+            f = sys._getframe()
+            while f is not None:
+                depth += 1
+                f = f.f_back
+            old = sys.getrecursionlimit()
+            sys.setrecursionlimit(depth + of["limit"])
+            try:
+                v = exec_op(env, self.program[i])
+            finally:
+                sys.setrecursionlimit(old)
+            if isinstance(v, Failed) and v.exc == "RecursionError":
+                v.injected = True
+                self.fired["recursion"] = self.fired.get("recursion", 0) + 1
+            return v
+        raise HarnessError("unknown op fault " + of["kind"])
 
     def run(self, wall_timeout=60.0):
         threads = []
